@@ -11,11 +11,17 @@ KERNELS = ["derivative._qderiv_actuator_passive_vel", "derivative._qderiv_actuat
 LEVEL_TEXT = ("Theorems (Mathlib calculus, HasDerivAt) about functions/kernels regenerated from util_misc.py / derivative.py / forward.py on every run: _poly_force_deriv is the derivative of "
               "x * _poly_force(x) (the force passive.py forms) for all coefficients and all x incl. 0; damper/spring forces have derivative -_poly_force_deriv; poly_potential' = force; "
               "_compute_damping_deriv stores that value; _qderiv_actuator_passive_vel stores exactly bias_vel + gain_vel * u for affine actuators (u = clamped ctrl / act / next act), 0 when the "
-              "force is clamped; exact write lists of _qderiv_actuator_passive and _qderiv_tendon_damping (J^T diag(B) J on the sparse pattern). The assembled qDeriv is compared with finite "
-              "differences of the smooth force on the real code (sampled).")
-LEVEL_NOTE = ("C27_partial: DC-motor branches, the RNE (Coriolis) derivative of the full implicit integrator and fluid derivatives are sampled only. The clamped-control defect found by the witness was "
-              "repaired (fix: commit). Trusted: Lean kernel + Mathlib, translator.")
-ASSUMPTIONS = ["finite differences with step 1e-3 in qvel, tolerance 2e-2 relative (float32)"]
+              "force is clamped; exact write lists of _qderiv_actuator_passive and _qderiv_tendon_damping (J^T diag(B) J on the sparse pattern). On the real code (sampled) the matrix written by "
+              "deriv_smooth_vel, M - h*qDeriv, is compared ENTRY BY ENTRY with float64 finite differences of MuJoCo's passive+actuator forces, with MuJoCo's analytic qDeriv and with finite differences of "
+              "mjw's own forces, for both implicit integrators, on models that combine every smooth-force component (joint/tendon damping incl. polynomial, joint and tendon actuators, ellipsoid-model "
+              "and inertia-box fluid bodies in ONE model, four media with wind); one step is compared with a dense solve using the finite-difference Jacobian and with mj_step.")
+LEVEL_NOTE = ("C27_partial: DC-motor branches, the RNE (Coriolis) derivative of the full implicit integrator and fluid derivatives are sampled only (the fluid kernels and the host-side choice of which "
+              "fluid kernel is launched are not in Gen). The clamped-control defect found by the witness was repaired (fix: commit). Observed, not recorded here (reported): the full implicit integrator "
+              "mirrors the lower triangle of the nonsymmetric ellipsoid-fluid derivative into the upper triangle (counted as 'observed: ...' in hits). Trusted: Lean kernel + Mathlib, translator.")
+ASSUMPTIONS = ["matrix check: float64 MuJoCo finite differences with step 1e-6, tolerance 1e-5*|M|max + 1e-3*|h*J|max + 1e-7 (observed noise < 0.1 of it); float32 finite differences of mjw forces with step 1e-3, "
+               "tolerance 1e-5*|M|max + 1e-2*|h*J|max + 2e-5, skipped when MuJoCo's forces have a kink inside the +-1e-3 window",
+               "finite-difference references are used only where MuJoCo's analytic qDeriv agrees with MuJoCo's own finite differences (the analytic comparison always runs)",
+               "step checks: tolerance 3e-2 relative (dense solve with the float32 finite-difference Jacobian), 2e-3 relative vs mj_step"]
 
 XML = """
 <mujoco>
@@ -36,10 +42,169 @@ XML = """
 """
 
 
-def _smooth_force(mjw, m, d, mjm, qvel):
-  d.qvel.assign(qvel[None].astype(np.float32))
+# second family: EVERY smooth-force component in one model.  Per-BODY choice of the fluid model (a body with at least one fluidshape="ellipsoid"
+# geom uses the ellipsoid model, every other body with mass the inertia-box model), joint damping (linear / polynomial), tendon damping
+# (linear / polynomial), velocity-dependent actuators on joints and on the tendon, medium density / viscosity / wind.
+XML_MIX = """
+<mujoco>
+  <option timestep="0.005" integrator="{integ}" density="{rho}" viscosity="{mu}" wind="{wind}"><flag contact="disable"/></option>
+  <worldbody>
+    <body pos="0 0 1"><joint name="h1" type="hinge" axis="0 1 0" damping="{jd}"/>
+      <geom type="box" size=".2 .05 .02" pos=".2 0 0" euler="10 20 30" density="500" fluidshape="{f0}"/>
+      <body pos=".4 0 0"><joint name="h2" type="hinge" axis="0 0 1" damping="0.2"/>
+        <geom type="capsule" size=".03 .15" pos=".15 .02 0" euler="-20 5 40" density="500" fluidshape="{f1}"/>
+        <body pos=".3 0 0"><joint name="b3" type="ball" damping="0.05"/>
+          <geom type="ellipsoid" size=".1 .06 .03" pos=".1 0 .05" euler="30 -15 10" density="500" fluidshape="{f2}"/>
+          <geom type="box" size=".03 .03 .08" pos=".05 .1 0" density="500" fluidshape="{f3}"/>
+        </body></body></body>
+    <body pos="1 0 1"><joint name="sl" type="slide" axis="0 0 1" damping="0.5"/><geom size=".05" density="500" fluidshape="{f4}"/></body>
+  </worldbody>
+  <tendon><fixed name="t1" damping="{td}"><joint joint="h1" coef="1"/><joint joint="h2" coef="-0.5"/></fixed></tendon>
+  <actuator>
+    <general joint="h1" gainprm="0 0 1.5" ctrllimited="true" ctrlrange="-1 1"/>
+    <position joint="h2" kp="5" kv="0.7"/>
+    <velocity joint="sl" kv="2"/>
+    <general tendon="t1" dyntype="filter" dynprm="0.05" gainprm="1 0 0.4" biastype="affine" biasprm="0 0 -0.3"/>
+  </actuator>
+</mujoco>
+"""
+# fluidshape of (link 1, link 2, link 3 geom a, link 3 geom b, slider); the first four MIX the two fluid models in one model (link 3 with one
+# ellipsoid geom and one plain geom is an ellipsoid-model body), the last two are the single-model controls
+FLUID_PATTERNS = [("none", "ellipsoid", "none", "none", "ellipsoid"), ("ellipsoid", "none", "ellipsoid", "none", "none"), ("none", "none", "none", "ellipsoid", "none"),
+                  ("ellipsoid", "ellipsoid", "none", "none", "ellipsoid"), ("none",) * 5, ("ellipsoid",) * 5]
+MEDIA = [(1000.0, 0.002), (1.2, 0.5), (0.0, 0.1), (300.0, 0.0)]   # water, thick air, viscosity only, density only
+
+
+def _dense_mass(mujoco, mjm, mjd):
+  nv = mjm.nv
+  M = np.zeros((nv, nv))
+  for k in range(nv):
+    e = np.zeros(nv); e[k] = 1.0
+    col = np.zeros(nv)
+    mujoco.mj_mulM(mjm, mjd, col, e)
+    M[:, k] = col
+  return M
+
+
+def _mj_fd(mujoco, mjm, mjd, eps):
+  """float64 central differences of MuJoCo's own forces wrt qvel: (d(passive + actuator)/dv, d(-bias)/dv)"""
+  nv = mjm.nv
+  t = mujoco.MjData(mjm)
+  out = []
+  for k in range(nv):
+    fs = []
+    for s in (1.0, -1.0):
+      t.qpos[:], t.qvel[:], t.ctrl[:], t.act[:] = mjd.qpos, mjd.qvel, mjd.ctrl, mjd.act
+      t.qvel[k] += s * eps
+      mujoco.mj_forward(mjm, t)
+      fs.append((t.qfrc_passive + t.qfrc_actuator, -t.qfrc_bias.copy()))
+    out.append(((fs[0][0] - fs[1][0]) / (2 * eps), (fs[0][1] - fs[1][1]) / (2 * eps)))
+  return np.array([o[0] for o in out]).T, np.array([o[1] for o in out]).T
+
+
+def _mj_qderiv(mjm, ref):
+  """MuJoCo's analytic qDeriv (D-structure, as left behind by mj_step with an implicit integrator) as a dense matrix"""
+  nv = mjm.nv
+  Q = np.zeros((nv, nv))
+  for i in range(nv):
+    a = int(mjm.D_rowadr[i])
+    for k in range(int(mjm.D_rownnz[i])):
+      Q[i, int(mjm.D_colind[a + k])] = ref.qDeriv[a + k]
+  return Q
+
+
+def _check_case(acc, mujoco, wp, mjw, derivative, mjm, mjd, integ, xml, fluid):
+  """all comparisons for one (model, state): mjd must hold the state after mj_forward.  Returns nothing; findings go to acc."""
+  nv, h = mjm.nv, mjm.opt.timestep
+  replay = dict(xml=xml, qpos=mjd.qpos.tolist(), qvel=mjd.qvel.tolist(), ctrl=mjd.ctrl.tolist(), act=mjd.act.tolist())
+  m = mjw.put_model(mjm)
+  d = mjw.put_data(mjm, mjd, nworld=1)
   mjw.forward(m, d)
-  return (d.qfrc_passive.numpy()[0] + d.qfrc_actuator.numpy()[0] - d.qfrc_bias.numpy()[0]).astype(np.float64), d.qfrc_bias.numpy()[0].astype(np.float64)
+  v0 = mjd.qvel.copy()
+  M = _dense_mass(mujoco, mjm, mjd)
+  sym = (lambda J: 0.5 * (J + J.T)) if integ == "implicitfast" else (lambda J: J)   # implicitfast symmetrises (fluid B -> (B + B^T)/2, no RNE term)
+
+  # ---- 1. the matrix deriv_smooth_vel itself: out = M - h * d(passive + actuator)/d(qvel) on M's sparsity pattern (lower triangle, chain ancestors)
+  out = wp.zeros((1, m.nC), dtype=float)
+  derivative.deriv_smooth_vel(m, d, out)
+  outn = out.numpy()[0].astype(np.float64)
+  eid = m.M_elemid.numpy() if hasattr(m.M_elemid, "numpy") else np.asarray(m.M_elemid)
+  mask = np.tril(eid >= 0)
+  A = np.where(mask, outn[np.clip(eid, 0, None)], 0.0)
+  # references: (a) float64 central differences of MuJoCo's forces, step 1e-6; (b) MuJoCo's analytic qDeriv left by mj_step (for the full implicit
+  # integrator it contains the RNE term, removed with (a)'s bias part); (c) float32 central differences of mjw's OWN forces, step 1e-3
+  Jpa, Jb = _mj_fd(mujoco, mjm, mjd, 1e-6)
+  Jpa3, _ = _mj_fd(mujoco, mjm, mjd, 1e-3)
+  ref = mujoco.MjData(mjm)
+  ref.qpos[:], ref.qvel[:], ref.ctrl[:], ref.act[:] = mjd.qpos, mjd.qvel, mjd.ctrl, mjd.act
+  mujoco.mj_step(mjm, ref)
+  Q = _mj_qderiv(mjm, ref) - (Jb if integ == "implicit" else 0.0)
+  Jw, Jbw = np.zeros((nv, nv)), np.zeros((nv, nv))
+  eps = 1e-3
+  for k in range(nv):
+    fs = []
+    for s in (1.0, -1.0):
+      v = v0.copy(); v[k] += s * eps
+      d.qvel.assign(v[None].astype(np.float32)); mjw.forward(m, d)
+      fs.append(((d.qfrc_passive.numpy()[0] + d.qfrc_actuator.numpy()[0]).astype(np.float64), -d.qfrc_bias.numpy()[0].astype(np.float64)))
+    Jw[:, k] = (fs[0][0] - fs[1][0]) / (2 * eps)
+    Jbw[:, k] = (fs[0][1] - fs[1][1]) / (2 * eps)
+  d.qvel.assign(v0[None].astype(np.float32)); mjw.forward(m, d)
+  sJ = np.abs(h * Jpa).max()
+  sM = np.abs(M).max()
+  # float32: M entries carry ~1e-7 relative error, the analytic derivative ~1e-5 (observed noise on the unchanged tree: <= 5e-7 absolute at sM ~ 0.4,
+  # sJ ~ 0.01..0.1); float32 finite differences carry  h * ulp(|f|) / eps ~ 1e-5 (observed <= 1e-5)
+  tol64 = 1e-5 * sM + 1e-3 * sJ + 1e-7
+  tol32 = 1e-5 * sM + 1e-2 * sJ + 2e-5
+  smooth_window = np.abs(h * (Jpa3 - Jpa)).max() <= 0.1 * tol32    # no kink (force clamp, |v| at 0) inside the +-1e-3 window of reference (c)
+  acc.hit("fd-window-smooth" if smooth_window else "fd-window-kink(mjw finite differences skipped)")
+
+  def worst(R):
+    E = np.abs(A - R * mask)
+    i, j = np.unravel_index(int(E.argmax()), E.shape)
+    return E[i, j], f"entry [{i},{j}] {A[i, j]:.6g} vs {(R * mask)[i, j]:.6g}; h*J scale {sJ:.3g}, M scale {sM:.3g}"
+  # arbiter on the REFERENCES only (no mjw quantity involved): MuJoCo's analytic ellipsoid-fluid derivative is occasionally off from MuJoCo's own finite
+  # differences (observed ~1e-2 relative, wind on, an ellipsoid-model geom with two equal semi-axes); mjw transcribes the analytic formula, so there the
+  # comparison with the analytic qDeriv decides and the finite-difference references are skipped (counted)
+  consistent = np.abs(h * (sym(Q) - sym(Jpa)) * mask).max() <= tol64
+  acc.hit("references-consistent" if consistent else "references-inconsistent: MuJoCo analytic qDeriv != MuJoCo finite differences (finite-difference comparisons skipped)")
+  for name, R, tol, on in (("mujoco-fd", M - h * sym(Jpa), tol64, consistent), ("mujoco-analytic", M - h * sym(Q), tol64, True), ("finite-difference", M - h * sym(Jw), tol32, smooth_window and consistent)):
+    if not on:
+      continue
+    e, txt = worst(R)
+    acc.hit(f"margin {name}: err/tol " + ("<= 0.1" if e <= 0.1 * tol else "<= 0.5" if e <= 0.5 * tol else "<= 1" if e <= tol else "> 1"))
+    if not e <= tol:
+      acc.find(f"deriv_smooth_vel ({integ}{', fluid ' + fluid if fluid else ''}): M - h*qDeriv differs from the reference '{name}' by {e:.3g} > {tol:.3g}: {txt}",
+               "derivative.deriv_smooth_vel", "matrix-vs-" + name, **replay)
+  acc.hit("qDeriv-asymmetric" if np.abs(h * (Jpa - Jpa.T)).max() > 10 * tol64 else "qDeriv-symmetric")
+
+  # ---- 2. one step vs a dense solve with the finite-difference velocity Jacobian of the real forces:  (M - h*J) dv = h * f
+  d2 = mjw.put_data(mjm, mjd, nworld=1)
+  mjw.step(m, d2)
+  qv = d2.qvel.numpy()[0].astype(np.float64)
+  dv = qv - v0
+  rhs = h * (d.qfrc_smooth.numpy()[0].astype(np.float64) + d.qfrc_constraint.numpy()[0].astype(np.float64))
+  Jfull = sym(Jw) + (Jbw if integ == "implicit" else 0.0)
+  dv_fd = np.linalg.solve(M - h * Jfull, rhs)
+  # arbiter for a deviation of the unchanged tree (reported, not recorded here): the full implicit integrator mirrors the lower triangle of
+  # d(passive+actuator)/dv into the upper one (_map_m2d of the M-structure matrix); MuJoCo keeps the nonsymmetric ellipsoid-fluid derivative
+  mirror = np.tril(Jpa) + np.tril(Jpa, -1).T
+  dv_mirror = np.linalg.solve(M - h * (mirror + Jb), h * (mjd.qfrc_smooth + mjd.qfrc_constraint)) if integ == "implicit" else None
+  mirrored = lambda tol_r, tol_a: dv_mirror is not None and np.abs(mirror - Jpa).max() * h > 10 * tol64 and np.allclose(dv, dv_mirror, rtol=tol_r, atol=tol_a)
+  scale = 1 + np.abs(dv_fd).max()
+  if not np.allclose(dv, dv_fd, rtol=3e-2, atol=3e-3 * scale):
+    if mirrored(3e-2, 3e-3 * scale):
+      acc.hit("observed: implicit step uses the mirrored lower triangle of the nonsymmetric fluid derivative")
+    else:
+      acc.find(f"{integ} step differs from a dense solve with the finite-difference velocity Jacobian of passive+actuator{'-bias' if integ == 'implicit' else ''} forces (max |d dv| {np.abs(dv - dv_fd).max():.3g})",
+               "derivative.deriv_smooth_vel" if integ == "implicitfast" else "forward.implicit / derivative.deriv_rne_vel", "vs-finite-difference", **replay)
+  # ---- 3. and against MuJoCo's own step
+  if not np.allclose(qv, ref.qvel, rtol=2e-3, atol=2e-3 * (1 + np.abs(ref.qvel).max())):
+    if mirrored(2e-3, 2e-3 * (1 + np.abs(ref.qvel).max())):
+      acc.hit("observed: implicit step uses the mirrored lower triangle of the nonsymmetric fluid derivative")
+    else:
+      acc.find(f"{integ} step differs from mj_step (max |d qvel| {np.abs(qv - ref.qvel).max():.3g})", "derivative.deriv_smooth_vel", "vs-mujoco", **replay)
+  return m
 
 
 def _run(ctx, ncases, rec):
@@ -49,6 +214,19 @@ def _run(ctx, ncases, rec):
   from mujoco_warp._src import derivative
   rng = np.random.default_rng(ctx.seed * 1000 + 27)
   acc = Acc()
+
+  def state(mjm):
+    mjd = mujoco.MjData(mjm)
+    mjd.qpos[:] = rng.normal(size=mjm.nq) * 0.4
+    for j in range(mjm.njnt):
+      if mjm.jnt_type[j] == mujoco.mjtJoint.mjJNT_BALL:
+        a = int(mjm.jnt_qposadr[j])
+        mjd.qpos[a:a + 4] /= np.linalg.norm(mjd.qpos[a:a + 4]) or 1.0
+    mjd.qvel[:] = rng.normal(size=mjm.nv)
+    mjd.ctrl[:] = rng.normal(size=mjm.nu) * 2.0    # saturates the ctrl-limited actuator often
+    mjd.act[:] = rng.normal(size=mjm.na) * 0.5
+    mujoco.mj_forward(mjm, mjd)
+    return mjd
 
   def scenario():
     for c in range(ncases):
@@ -61,64 +239,34 @@ def _run(ctx, ncases, rec):
         xml = xml.replace('<joint name="h2" type="hinge" axis="0 1 0"', '<joint name="h2" type="hinge" axis="1 0 0.3"').replace(
           '<geom type="capsule" size=".03 .15"/></body></body>', '<geom type="capsule" size=".03 .15"/><body pos=".1 .2 0"><joint type="ball" damping="0.05"/><geom type="box" size=".05 .1 .02" pos=".1 0 .05"/></body></body></body>')
       mjm = mujoco.MjModel.from_xml_string(xml)
-      mjd = mujoco.MjData(mjm)
-      mjd.qpos[:] = rng.normal(size=mjm.nq) * 0.4
-      if mjm.nq > mjm.nv:
-        mjd.qpos[-4:] /= np.linalg.norm(mjd.qpos[-4:]) or 1.0
-      mjd.qvel[:] = rng.normal(size=mjm.nv)
-      mjd.ctrl[:] = rng.normal(size=mjm.nu) * 2.0    # saturates the ctrl-limited actuator often
-      mjd.act[:] = rng.normal(size=mjm.na) * 0.5
-      mujoco.mj_forward(mjm, mjd)
-      m = mjw.put_model(mjm)
-      d = mjw.put_data(mjm, mjd, nworld=1)
-      mjw.forward(m, d)
-      # MuJoCo's analytic derivative of (passive + actuator) wrt velocity: qDeriv (without the RNE term for implicitfast)
-      mujoco.mjd_smooth_vel(mjm, mjd, 0) if hasattr(mujoco, "mjd_smooth_vel") else None
-      # finite differences on the real mjw forces (actuator + passive), velocity-only perturbation
-      v0 = mjd.qvel.copy()
-      eps = 1e-3
-      J = np.zeros((mjm.nv, mjm.nv))
-      for k in range(mjm.nv):
-        vp, vm = v0.copy(), v0.copy()
-        vp[k] += eps
-        vm[k] -= eps
-        d.qvel.assign(vp[None].astype(np.float32)); mjw.forward(m, d)
-        fp = (d.qfrc_passive.numpy()[0] + d.qfrc_actuator.numpy()[0] - (d.qfrc_bias.numpy()[0] if integ == "implicit" else 0.0)).astype(np.float64)
-        d.qvel.assign(vm[None].astype(np.float32)); mjw.forward(m, d)
-        fm = (d.qfrc_passive.numpy()[0] + d.qfrc_actuator.numpy()[0] - (d.qfrc_bias.numpy()[0] if integ == "implicit" else 0.0)).astype(np.float64)
-        J[:, k] = (fp - fm) / (2 * eps)
-      d.qvel.assign(v0[None].astype(np.float32)); mjw.forward(m, d)
-      # mjw's analytic: out = M - dt * qDeriv  (deriv_smooth_vel writes in M's sparse layout) -> compare through one implicitfast step instead:
-      # (M - h*qDeriv) dv = h * f  =>  use the step itself against a dense solve with the FD Jacobian
-      M = np.zeros((mjm.nv, mjm.nv))
-      for k in range(mjm.nv):
-        e = np.zeros(mjm.nv); e[k] = 1.0
-        col = np.zeros(mjm.nv)
-        mujoco.mj_mulM(mjm, mjd, col, e)
-        M[:, k] = col
-      h = mjm.opt.timestep
-      f = (d.qfrc_smooth.numpy()[0]).astype(np.float64) if hasattr(d, "qfrc_smooth") else None
-      d2 = mjw.put_data(mjm, mjd, nworld=1)
-      mjw.step(m, d2)
-      dv = d2.qvel.numpy()[0].astype(np.float64) - v0
-      rhs = h * (d.qfrc_smooth.numpy()[0].astype(np.float64) + d.qfrc_constraint.numpy()[0].astype(np.float64))
-      dv_fd = np.linalg.solve(M - h * J, rhs)
+      mjd = state(mjm)
+      _check_case(acc, mujoco, wp, mjw, derivative, mjm, mjd, integ, xml, "")
       acc.evals += 1
       acc.distinct.add((c, fl, integ))
       acc.hit(integ)
-      scale = 1 + np.abs(dv_fd).max()
-      if not np.allclose(dv, dv_fd, rtol=3e-2, atol=3e-3 * scale):
-        acc.find(f"{integ} step differs from a dense solve with the finite-difference velocity Jacobian of passive+actuator{'-bias' if integ == 'implicit' else ''} forces (max |d dv| {np.abs(dv - dv_fd).max():.3g})",
-                 "derivative.deriv_smooth_vel" if integ == "implicitfast" else "forward.implicit / derivative.deriv_rne_vel", "vs-finite-difference", xml=xml, qpos=mjd.qpos.tolist(), qvel=v0.tolist(), ctrl=mjd.ctrl.tolist(), act=mjd.act.tolist())
-      # and against MuJoCo's own step
-      ref = mujoco.MjData(mjm)
-      ref.qpos[:], ref.qvel[:], ref.ctrl[:], ref.act[:] = mjd.qpos, mjd.qvel, mjd.ctrl, mjd.act
-      mujoco.mj_step(mjm, ref)
-      if not np.allclose(d2.qvel.numpy()[0], ref.qvel, rtol=2e-3, atol=2e-3 * (1 + np.abs(ref.qvel).max())):
-        acc.find(f"{integ} step differs from mj_step (max |d qvel| {np.abs(d2.qvel.numpy()[0] - ref.qvel).max():.3g})", "derivative.deriv_smooth_vel", "vs-mujoco", xml=xml,
-                 qpos=mjd.qpos.tolist(), qvel=v0.tolist(), ctrl=mjd.ctrl.tolist(), act=mjd.act.tolist())
       acc.hit("ctrl-saturated" if abs(mjd.ctrl[0]) > 1 else "ctrl-inside")
       acc.sample({"forcelimited": fl, "ctrl": np.round(mjd.ctrl, 2).tolist()})
+    # mixed models: both fluid models + joint/tendon damping (polynomial every third case) + actuators, both integrators, all four media in rotation
+    for c in range(ncases):
+      integ = "implicit" if c % 2 else "implicitfast"
+      pat = FLUID_PATTERNS[(c // 2) % len(FLUID_PATTERNS)]
+      rho, mu = MEDIA[(c + c // 2) % len(MEDIA)]
+      poly = c % 3 == 0
+      wind = " ".join(f"{x:.3f}" for x in rng.normal(size=3) * 1.5)
+      xml = XML_MIX.format(integ=integ, rho=rho, mu=mu, wind=wind, jd="0.4 0.15 0.05" if poly else "0.4", td="0.3 0.2 0.1" if poly else "0.3",
+                           f0=pat[0], f1=pat[1], f2=pat[2], f3=pat[3], f4=pat[4])
+      mjm = mujoco.MjModel.from_xml_string(xml)
+      mjd = state(mjm)
+      m = _check_case(acc, mujoco, wp, mjw, derivative, mjm, mjd, integ, xml, "/".join(pat))
+      nbox, nell = int(m.body_fluid_box_adr.size), int(m.body_fluid_ellipsoid_adr.size)
+      acc.evals += 1
+      acc.distinct.add(("mix", c, pat, integ, rho, mu))
+      acc.hit("mix:" + integ)
+      acc.hit("mix:fluid-models-mixed" if nbox and nell else ("mix:box-only" if nbox else "mix:ellipsoid-only"))
+      acc.hit(f"mix:medium density={rho:g} viscosity={mu:g}")
+      acc.hit("mix:polynomial-damping" if poly else "mix:linear-damping")
+      acc.hit("mix:fluid-force-active" if np.abs(mjd.qfrc_fluid).max() > 1e-6 else "mix:fluid-force-zero")
+      acc.sample({"fluidshape": pat, "integrator": integ, "density": rho, "viscosity": mu, "n_box_bodies": nbox, "n_ellipsoid_bodies": nell}, limit=5)
 
   if rec:
     kc, _ = intercept(KERNELS, scenario, rng, max_tids=16, per_kernel=3)
@@ -128,9 +276,13 @@ def _run(ctx, ncases, rec):
   return acc, kc
 
 
-RULE = ("arm + slider with joint and tendon damping and velocity-dependent actuators (affine velocity gain with a ctrl-limited control that is often saturated, position with kv, velocity with force "
-        "limit, tendon actuator with filter dynamics); one implicitfast step (even cases) or one full implicit step on a non-planar chain with a ball joint (odd cases; J then includes -d qfrc_bias/d qvel) vs (a) a dense solve of (M - h J) dv = h f with J the central finite-difference velocity Jacobian of the real "
-        "passive+actuator forces, (b) mujoco.mj_step; distinct = (case, forcelimited)")
+RULE = ("two families, even cases implicitfast / odd cases full implicit. (A) arm + slider with joint and tendon damping and velocity-dependent actuators (affine velocity gain with a ctrl-limited control that is often "
+        "saturated, position with kv, velocity with force limit, tendon actuator with filter dynamics; the implicit cases on a non-planar chain with a ball joint). (B) mixed models: 3-link chain (hinge, hinge, ball) + slider in "
+        "a medium (water / thick air / viscosity only / density only in rotation, random wind) where the fluid model is chosen per body in rotation (4 patterns mixing ellipsoid-model and inertia-box bodies in ONE model, "
+        "incl. a body with one ellipsoid and one plain geom; all-box and all-ellipsoid controls in the thorough tier), joint + tendon damping (polynomial every third case) and actuators on joints and tendon. Per case: "
+        "(1) the matrix written by deriv_smooth_vel (M - h*qDeriv on M's sparsity pattern) entry by entry vs M - h*J with J from float64 central differences of MuJoCo's passive+actuator forces, vs MuJoCo's analytic qDeriv "
+        "(left by mj_step; RNE part removed for the full implicit integrator), and vs float32 central differences of mjw's own forces (symmetrised for implicitfast); (2) one step vs a dense solve of (M - h J) dv = h f with "
+        "J the central finite-difference velocity Jacobian of the real forces (incl. -d qfrc_bias/d qvel for implicit); (3) one step vs mujoco.mj_step; distinct = (family, case, pattern, integrator, medium)")
 
 
 def correspondence(ctx):
